@@ -510,23 +510,43 @@ where
         });
     }
 
+    // The quotient is evaluated `Packing::WIDTH` points at a time; an evaluation domain smaller than
+    // that (a very short trace with low-degree constraints) is evaluated one point at a time.
+    let quotient_domain_size = degree << log2_ceil(stark.quotient_degree_factor().max(1));
     let quotient_polys = timed!(
         timing,
         "compute quotient polys",
-        compute_quotient_polys::<F, <F as Packable>::Packing, C, S, D>(
-            stark,
-            trace_commitment,
-            &auxiliary_polys_commitment,
-            lookup_challenges.as_ref(),
-            &lookups,
-            ctl_data,
-            public_inputs,
-            alphas.clone(),
-            degree_bits,
-            num_lookup_columns,
-            &num_ctl_polys,
-            config,
-        )
+        if quotient_domain_size < <<F as Packable>::Packing as PackedField>::WIDTH {
+            compute_quotient_polys::<F, F, C, S, D>(
+                stark,
+                trace_commitment,
+                &auxiliary_polys_commitment,
+                lookup_challenges.as_ref(),
+                &lookups,
+                ctl_data,
+                public_inputs,
+                alphas.clone(),
+                degree_bits,
+                num_lookup_columns,
+                &num_ctl_polys,
+                config,
+            )
+        } else {
+            compute_quotient_polys::<F, <F as Packable>::Packing, C, S, D>(
+                stark,
+                trace_commitment,
+                &auxiliary_polys_commitment,
+                lookup_challenges.as_ref(),
+                &lookups,
+                ctl_data,
+                public_inputs,
+                alphas.clone(),
+                degree_bits,
+                num_lookup_columns,
+                &num_ctl_polys,
+                config,
+            )
+        }
     );
     let (quotient_commitment, quotient_polys_cap) = if let Some(quotient_polys) = quotient_polys {
         let all_quotient_chunks = timed!(
